@@ -9,10 +9,20 @@
 //! emitted, `dhcpv4::Socket::poll()` events and `Interface::poll_at`.
 //!
 //! Oracle clauses and their failure keys
-//!  1 `configured-without-valid-ack:<reason>`, `configured-mismatch:<field>`
-//!  2 `lease-overrun`, `poll_at-after-expiry`
-//!  3 `rebind-before-renew`, `request-after-expiry`, `no-renew-attempt-before-expiry`
+//!  1 `configured-without-valid-ack:<reason>` (reason = first requirement the closest delivered
+//!    message fails: eth-dst, udp-checksum, wrong-port, bad-cookie, not-ack, before-any-request, xid,
+//!    chaddr, not-requesting, no-server-id, truncated-options, mask-absent, mask-noncontiguous,
+//!    yiaddr-not-unicast, no-reply-delivered), `configured-mismatch:{address,router,dns}`
+//!  2 `lease-overrun:<scenario>`, `poll_at-after-expiry:<scenario>`
+//!  3 `rebind-before-renew`, `request-after-expiry`, `no-rebind-attempt-before-expiry:<scenario>`,
+//!    `no-renew-attempt-before-expiry`, `rebind-without-renew`
 //!  4 `solicit-gap`, `solicit-gap:poll_at`
+//! <scenario> is `neighbor-known` when, for the whole lease, the environment announced the next hop
+//! towards the server by ARP before every poll (the client never had to resolve it), otherwise
+//! `neighbor-unresolved`. The suffix only names the scenario class; it never changes a verdict.
+//!
+//! Files: c18.rs (types), c18_dhcp.rs (own DHCP codec, a module), c18_world.rs (oracle + one
+//! simulation step) and c18_case.rs (scripted server, driver, Prop) are textually included.
 
 #[path = "c18_dhcp.rs"]
 mod dhcp;
@@ -54,6 +64,8 @@ struct Seen {
     /// decoded as a DHCP message addressed to the client's DHCP port
     mtype: Option<u8>,
     verdict: Result<AckInfo, &'static str>,
+    /// an OFFER with current xid, own chaddr, server id and unicast yiaddr
+    offer_ok: bool,
 }
 
 // ------------------------------------------------------------------ generator side: server replies
@@ -181,6 +193,8 @@ enum ArpPolicy {
     Answer,
     Never,
     Sometimes,
+    /// answers, and additionally the next hop announces itself (ARP request for the client's address) before every poll
+    Proactive,
 }
 
 /// Client message as seen on the wire.
@@ -212,11 +226,16 @@ struct World {
     arp_policy: ArpPolicy,
     renew_policy: u8,
     src_varied: bool,
-    zero_src: bool,
+    /// 0 = replies always come from the server's address, 1 = sometimes from another unicast address, 2 = sometimes from 0.0.0.0
+    weird_src: u8,
 
     // ---- wire observations
     sent_any: bool,
     last_xid: u32,
+    /// DHCP message type of the client's latest message
+    last_type: u8,
+    /// an acceptable OFFER was delivered since the client's latest message
+    offer_seen: bool,
     xids: Vec<u32>,
 
     // ---- lease model
@@ -234,7 +253,12 @@ struct World {
     abort: bool,
     lease_renew_seen: bool,
     lease_rebind_seen: bool,
-    gate_suspect_until: i64,
+    /// until this instant the interface may still be holding the socket in its neighbour wait
+    gate_until: i64,
+    /// no poll of the current lease could have started a neighbour wait
+    lease_gate_free: bool,
+    /// what the application last applied to the interface: address, prefix, router
+    applied: Option<([u8; 4], u8, Option<[u8; 4]>)>,
 
     // ---- solicitation model
     ref_t: i64,
